@@ -5,11 +5,53 @@ use std::fs;
 use std::io::{BufRead, BufReader, BufWriter, Write};
 use std::panic::{catch_unwind, AssertUnwindSafe};
 
-pub struct Session {}
+use std::io::Cursor;
+use std::time::{Duration, SystemTime, UNIX_EPOCH};
+
+pub type Pkg = msi::Package<Cursor<Vec<u8>>>;
+
+pub struct Session {
+    /// scratch package used by the in-memory summary-information requests
+    pub scratch: Option<Pkg>,
+}
 
 impl Session {
     pub fn new() -> Session {
-        Session {}
+        Session { scratch: None }
+    }
+    pub fn scratch(&mut self) -> &mut Pkg {
+        if self.scratch.is_none() {
+            self.scratch = Some(
+                msi::Package::create(msi::PackageType::Installer, Cursor::new(Vec::new()))
+                    .expect("create scratch package"),
+            );
+        }
+        self.scratch.as_mut().unwrap()
+    }
+}
+
+/// (secs, nanos) with nanos in 0..10^9, relative to the Unix epoch -> SystemTime
+pub fn systime_of(secs: i64, nanos: u32) -> Option<SystemTime> {
+    if secs >= 0 {
+        UNIX_EPOCH.checked_add(Duration::new(secs as u64, nanos))
+    } else {
+        UNIX_EPOCH
+            .checked_sub(Duration::new(secs.unsigned_abs(), 0))?
+            .checked_add(Duration::new(0, nanos))
+    }
+}
+
+pub fn secs_nanos_of(t: SystemTime) -> (i64, u32) {
+    match t.duration_since(UNIX_EPOCH) {
+        Ok(d) => (d.as_secs() as i64, d.subsec_nanos()),
+        Err(e) => {
+            let d = e.duration();
+            if d.subsec_nanos() == 0 {
+                ((d.as_secs() as i128).wrapping_neg() as i64, 0)
+            } else {
+                ((-(d.as_secs() as i128) - 1) as i64, 1_000_000_000 - d.subsec_nanos())
+            }
+        }
     }
 }
 
@@ -25,7 +67,6 @@ pub fn exec_line(sess: &mut Session, line: &str) -> String {
     if toks.is_empty() {
         return String::new();
     }
-    let _ = sess;
     guarded(|| match toks[0] {
         "lang_tag" => {
             let code: u16 = toks[1].parse().unwrap();
@@ -53,6 +94,39 @@ pub fn exec_line(sess: &mut Session, line: &str) -> String {
             let tag = str_of_hex(toks[1]).unwrap();
             let lang = msi::Language::from_tag(&tag);
             format!("{} {}", lang.code(), hex_of_str(lang.tag()))
+        }
+        "ts_rt" => {
+            let secs: i64 = toks[1].parse().unwrap();
+            let nanos: u32 = toks[2].parse().unwrap();
+            let t = match systime_of(secs, nanos) {
+                Some(t) => t,
+                None => return "unrepresentable".to_string(),
+            };
+            let pkg = sess.scratch();
+            pkg.summary_info_mut().set_creation_time(t);
+            let r = pkg.summary_info().creation_time().unwrap();
+            pkg.summary_info_mut().set_creation_time(r);
+            let r2 = pkg.summary_info().creation_time().unwrap();
+            let (a, b) = secs_nanos_of(r);
+            let (c, d) = secs_nanos_of(r2);
+            format!("{a} {b} {c} {d}")
+        }
+        "ts_save" => {
+            let secs: i64 = toks[1].parse().unwrap();
+            let nanos: u32 = toks[2].parse().unwrap();
+            let t = match systime_of(secs, nanos) {
+                Some(t) => t,
+                None => return "unrepresentable".to_string(),
+            };
+            let mut pkg =
+                msi::Package::create(msi::PackageType::Installer, Cursor::new(Vec::new()))
+                    .unwrap();
+            pkg.summary_info_mut().set_creation_time(t);
+            let cur = pkg.into_inner().unwrap();
+            let pkg = msi::Package::open(cur).unwrap();
+            let r = pkg.summary_info().creation_time().unwrap();
+            let (a, b) = secs_nanos_of(r);
+            format!("{a} {b}")
         }
         _ => "bad-request".to_string(),
     })
